@@ -19,3 +19,25 @@ pub proof fn lemma_int_of_low_bits_{I}_{J}(data: Seq<{I}>, len: int, x: {J})
         lemma_fval_zero_above(g, {J.bits}, len as nat);
     }
 }
+/// storage whose bit b (below cap) is bit b of the native integer x, x having no set bit at or beyond len: wf at length len, value x
+pub proof fn lemma_int_value_{I}_{J}(data: Seq<{I}>, len: int, x: {J}, cap: int)
+    requires
+        cap == data.len() * {I.bits}, 0 <= len <= cap, len <= {J.bits},
+        forall|b: int| 0 <= b < cap ==> #[trigger] bit_at{X}(data, b) == (b < {J.bits} && wbit{Y}(x, b as nat)),
+        forall|t: nat| len <= t < {J.bits} ==> !wbit{Y}(x, t),
+    ensures
+        forall|b: int| len <= b < cap ==> !bit_at{X}(data, b),
+        fval(|b: int| 0 <= b < len && bit_at{X}(data, b), len as nat) == x as nat,
+{
+    let g = |b: int| 0 <= b < len && bit_at{X}(data, b);
+    lemma_word_val{Y}(x);
+    assert forall|b: int| 0 <= b < len implies #[trigger] wordf{Y}(x)(b) == g(b) by {
+        assert(bit_at{X}(data, b) == (b < {J.bits} && wbit{Y}(x, b as nat)));
+    }
+    lemma_fval_ext(wordf{Y}(x), g, len as nat);
+    assert forall|b: int| len <= b < {J.bits} implies !#[trigger] wordf{Y}(x)(b) by { assert(!wbit{Y}(x, b as nat)); }
+    lemma_fval_zero_above(wordf{Y}(x), len as nat, {J.bits});
+    assert forall|b: int| len <= b < cap implies !bit_at{X}(data, b) by {
+        if b < {J.bits} { assert(!wbit{Y}(x, b as nat)); }
+    }
+}
